@@ -593,7 +593,7 @@ func workerMain() {
 func (s *wstate) begin(jobID string, idx int, op string, single bool) {
 	s.mu.Lock()
 	s.jobID, s.idx, s.op, s.started, s.active = jobID, idx, op, time.Now(), true
-	if single && idx >= 0 {
+	if single {
 		s.flushHist()
 		fmt.Fprintf(s.w, "B\t%s\t%d\t%s\n", jobID, idx, op)
 		s.w.Flush()
